@@ -17,6 +17,9 @@ for f in ('patch.diff', 'demo.py', 'notes.md'):
     if os.path.exists(p) and os.path.abspath(p) != os.path.abspath(os.path.join(dst, f)): shutil.copy(p, os.path.join(dst, f))
 patch = os.path.join(dst, 'patch.diff')
 meta = dict(seed=seed, property=prop)
+try: _prev = json.load(open(os.path.join(dst, 'meta.json')))
+except Exception: _prev = {}
+if not run_tests and _prev.get('tests'): meta['tests'] = dict(_prev['tests'], note='suite result from the earlier evaluation of the same patch')
 def sh(cmd, **kw): return subprocess.run(cmd, shell=True, capture_output=True, text=True, **kw)
 wt = tempfile.mkdtemp(prefix=f'seedwt_{seed}_', dir='/tmp'); os.rmdir(wt)
 sh(f'git -C /repo worktree prune')
